@@ -272,7 +272,7 @@ func c14Templates() map[string][]byte {
 
 func init() {
 	p := register(&Prop{ID: "C14", Level: "exploration",
-		Rule: "exhaustive: every byte string of length<=2 (quick) / <=3 (thorough) and every string of length<=4 (quick) / <=5 (thorough) over a 24/40-symbol opcode+push alphabet; every standard template with every byte replaced by every value, every push replaced by 4c00/4d0000/4e00000000/OP_0/truncated push, every part removed, every token and every pair of tokens re-encoded (push through PUSHDATA1/2/4, one-byte opcode as a one-byte push); each through all inspection queries (and NodeJSON marshalling for templates and short strings). distinct_nontrivial = distinct (ScriptType, predicate vector, decodable) classes x script length observed"})
+		Rule: "exhaustive: every byte string of length<=2 (quick) / <=3 (thorough) and every string of length<=4 (quick) / <=5 (thorough) over a 24/40-symbol opcode+push alphabet; every standard template with every byte replaced by every value, every push replaced by 4c00/4d0000/4e00000000/OP_0/truncated push, every part removed, every token and every pair of tokens re-encoded (push through PUSHDATA1/2/4, one-byte opcode as a one-byte push); plus every bare m-of-n multisig with 1<=m<=n<=16 and its off-by-one neighbours; each through all inspection queries (and NodeJSON marshalling for templates and short strings). distinct_nontrivial = distinct (ScriptType, predicate vector, decodable) classes x script length observed"})
 	sp := NewSpace(p, "bytes", c14Check)
 	p.Run = func(r *rep.Run, thorough bool) {
 		classify := func(c c14Case) []rep.Finding {
@@ -385,6 +385,29 @@ func init() {
 							add(bytes.Join([][]byte{t[:tk.Off], rp, t[tk.End:toks[tj].Off], rp2, t[toks[tj].End:]}, nil))
 						}
 					}
+				}
+			}
+		}
+		// every bare m-of-n multisig, 1 <= m <= n <= 16 (compressed and uncompressed keys mixed),
+		// and its neighbours with the count opcodes one off
+		for n := 1; n <= 16; n++ {
+			for m := 1; m <= n; m++ {
+				for _, dm := range []int{0, 1} {
+					sc := []byte{byte(0x50 + m)}
+					for i := 0; i < n; i++ {
+						k := append([]byte{0x02 + byte(i%2)}, bytes.Repeat([]byte{byte(0x10 + i)}, 32)...)
+						if i%5 == 4 {
+							k = append([]byte{0x04}, bytes.Repeat([]byte{byte(0x10 + i)}, 64)...)
+						}
+						sc = append(append(sc, byte(len(k))), k...)
+					}
+					cnt := n + dm
+					if cnt > 16 {
+						sc = append(sc, 0x01, 0x11) // "17" pushed as data: not a template
+					} else {
+						sc = append(sc, byte(0x50+cnt))
+					}
+					add(append(sc, 0xae))
 				}
 			}
 		}
